@@ -5,6 +5,9 @@ Property theorems only (helpers: `Sqfs/Proofs/Tar*.lean`).  Models: `Sqfs/Model/
 function per C function / loop of `lib/tar` and of the conversion code of `tar2sqfs`/`sqfs2tar`.
 -/
 import Sqfs.Proofs.TarNumber
+import Sqfs.Proofs.TarHeader
+import Sqfs.Proofs.TarSparse
+import Sqfs.Proofs.TarConv
 namespace Sqfs.C04
 open Sqfs.Tar
 
@@ -151,6 +154,214 @@ theorem checksum_roundtrip (h : Bytes) (hl : h.length = 512) :
     rw [e3, e5, e4]; simp
   · unfold updateChecksum
     simp [hF, hl]
+
+/-! ## PAX records written by `write_schily_xattr` -/
+
+/--
+**`prefix_digit_len` is correct** for every `len` (no bound): the number of digits it returns is the
+number of digits of `len` *plus that number* — the self-referential length of a PAX record.  (The
+`do … while` loop reaches its fixed point within three iterations, so the fuel of the model is exact.)
+-/
+theorem prefix_digit_len_correct (len : Nat) : numDigits (len + prefixDigitLen len) = prefixDigitLen len :=
+  prefixDigitLen_fix len
+
+/-- hence the length field of every emitted `SCHILY.xattr` record equals the record's actual length,
+    for all keys and all (binary) values -/
+theorem schily_record_length (key value : Bytes) :
+    let len := 13 + key.length + value.length + 3
+    schilyRecord key value = decStr (len + prefixDigitLen len) ++ ([32] ++ schilyPrefix ++ key ++ [61] ++ value ++ [10]) ∧
+    (schilyRecord key value).length = len + prefixDigitLen len := by
+  have hp : schilyPrefix.length = 13 := by decide
+  refine ⟨?_, ?_⟩
+  · unfold schilyRecord
+    simp only [hp, List.append_assoc]
+  · unfold schilyRecord
+    simp only [hp, List.length_append, decStr_length, prefix_digit_len_correct, List.length_cons, List.length_nil]
+    omega
+
+/-! ## sparse files (`iterator.c`) -/
+
+/--
+**Sparse expansion.**  For every non-empty well-formed map (ascending, non-overlapping, within the file size;
+zero-length entries and adjacent regions allowed — every dialect delivers the map as such a list), every file
+size and every archive stream holding at least the map's data bytes, reading the file stream to its end
+* ends with EOF (not with "corrupted"),
+* yields exactly the specified expansion: `file_size` bytes, zeros in the holes, the data regions' bytes in
+  archive order at their offsets,
+* consumes exactly `record_size` = Σ count bytes of the archive and leaves `record_size = 0`, so that `it_next`
+  then skips exactly the padding to the next 512-byte boundary.
+-/
+theorem sparse_expand_spec (m : List (Nat × Nat)) (fileSize : Nat) (s : Bytes)
+    (hne : m ≠ []) (hwf : WellFormedMap 0 m fileSize) (hs : dataBytes m ≤ s.length) (h64 : dataBytes m < U64) :
+    expand m fileSize (dataBytes m) s =
+      ⟨specExpand 0 m fileSize s, s.drop (dataBytes m), 0, .eof⟩ := by
+  unfold expand
+  have := expandLoop_wf m [] 0 fileSize (2 * m.length + fileSize + 4) (dataBytes m) s []
+    (by simpa using hne) (by intro e he; cases he) hwf hs (Nat.le_refl _) h64 (by omega)
+  simpa using this
+
+/-- the specified expansion has exactly `file_size` bytes -/
+theorem specExpand_length (m : List (Nat × Nat)) :
+    ∀ (pos fileSize : Nat) (data : Bytes), WellFormedMap pos m fileSize → dataBytes m ≤ data.length →
+      (specExpand pos m fileSize data).length = fileSize - pos := by
+  induction m with
+  | nil => intro pos F data h _; simp [specExpand, zeros]
+  | cons e t ih =>
+    obtain ⟨o, c⟩ := e
+    intro pos F data h hd
+    obtain ⟨h1, h2⟩ := h
+    have hb := (wf_bounds (o + c) t F h2).1
+    simp only [dataBytes] at hd
+    simp only [specExpand, List.length_append, zeros, List.length_replicate, List.length_take]
+    rw [ih (o + c) F (data.drop c) h2 (by simp; omega)]
+    omega
+
+/-! ## conversion steps of tar2sqfs (`process_tarball.c`, `fstree.c`) -/
+
+/-- **mtime clamp**: every time stamp is brought into `[0, 2^32 − 1]`, values inside are unchanged. -/
+theorem mtime_clamp (m : Int) :
+    0 ≤ clampMtime m ∧ clampMtime m ≤ 4294967295 ∧ (0 ≤ m → m ≤ 4294967295 → clampMtime m = m) ∧
+    (m < 0 → clampMtime m = 0) ∧ (m > 4294967295 → clampMtime m = 4294967295) := by
+  unfold clampMtime
+  simp only []
+  refine ⟨?_, ?_, ?_, ?_, ?_⟩ <;> (intros; split_ifs <;> omega)
+
+/-- what `process_tarball` hands to the tree is already clamped, so `mknode`'s `clamp_timestamp` and the unclamped
+    copy in `fstree_add_generic`'s overwrite path (suspected defect D20) store the same value: D20 is
+    unreachable from tar2sqfs -/
+theorem mtime_overwrite_path_safe (m : Int) :
+    ((clampMtime m % 4294967296).toNat = clampTimestamp (clampMtime m)) ∧
+    (clampTimestamp (clampMtime m) : Int) = clampMtime m := by
+  obtain ⟨h0, h1, _⟩ := mtime_clamp m
+  unfold clampTimestamp
+  have h2 : ¬ clampMtime m < 0 := by omega
+  have h3 : ¬ clampMtime m > 0xFFFFFFFF := by omega
+  simp only [h2, h3, if_false]
+  constructor <;> omega
+
+/-- **`--root-becomes` prefix strip**: an entry is kept exactly when its name is the root directory itself or lies
+    below it; below it, the name loses exactly the prefix `root/`. -/
+theorem prefix_strip (o : ConvOpts) (e : CEntry) (r : Bytes) (h : o.rootBecomes = some r) :
+    (processEntry o e = .skip ↔ ¬ (e.name = r ∨ ∃ rest, e.name = r ++ Sqfs.Path.SL :: rest)) ∧
+    (∀ e', processEntry o e = .node e' → r ++ Sqfs.Path.SL :: e'.name = e.name) ∧
+    (∀ e', processEntry o e = .root e' → e.name = r) := by
+  unfold processEntry processEntryWith
+  simp only [h]
+  by_cases ht : e.name.take r.length = r
+  · have hsplit := take_eq_split e.name r ht
+    simp only [ht, if_true]
+    cases hd : e.name.drop r.length with
+    | nil =>
+      rw [hd] at hsplit
+      simp only [List.append_nil] at hsplit
+      simp only
+      refine ⟨?_, ?_, ?_⟩
+      · constructor
+        · intro h'; split at h' <;> cases h'
+        · intro h'; exact absurd (Or.inl hsplit) h'
+      · intro e' h'; split at h' <;> cases h'
+      · intro e' _; exact hsplit
+    | cons c rest =>
+      rw [hd] at hsplit
+      simp only
+      by_cases hc : c = Sqfs.Path.SL
+      · subst hc
+        simp only [if_true]
+        refine ⟨?_, ?_, ?_⟩
+        · constructor
+          · intro h'; split at h' <;> cases h'
+          · intro h'; exact absurd (Or.inr ⟨rest, hsplit⟩) h'
+        · intro e' h'
+          have : e'.name = rest := by
+            split at h' <;> (cases h'; rfl)
+          rw [this, ← hsplit]
+        · intro e' h'; split at h' <;> cases h'
+      · simp only [hc, if_false]
+        refine ⟨?_, ?_, ?_⟩
+        rotate_left
+        · intro e' h'; cases h'
+        · intro e' h'; cases h'
+        constructor
+        · intro _ hor
+          rcases hor with h1 | ⟨rest', h1⟩
+          · rw [h1] at hsplit
+            have := congrArg List.length hsplit
+            simp at this
+          · rw [h1] at hsplit
+            have := List.append_cancel_left hsplit
+            simp only [List.cons.injEq] at this
+            exact hc this.1.symm
+        · intro _; trivial
+  · simp only [ht, if_false]
+    refine ⟨?_, ?_, ?_⟩
+    rotate_left
+    · intro e' h'; cases h'
+    · intro e' h'; cases h'
+    constructor
+    · intro _ hor
+      rcases hor with h1 | ⟨rest', h1⟩
+      · apply ht; rw [h1]; simp
+      · apply ht; rw [h1]; simp
+    · intro _; trivial
+
+/-- **root handling** without `--root-becomes`: exactly the entry whose canonical name is empty ("./", "/", ".")
+    sets the root's attributes; everything else becomes a node under its unchanged name. -/
+theorem root_handling (o : ConvOpts) (e : CEntry) (h : o.rootBecomes = none) :
+    (e.name = [] → ∃ e', processEntry o e = .root e' ∧ e'.name = [] ∧ e'.uid = e.uid ∧ e'.gid = e.gid ∧ e'.mode = e.mode) ∧
+    (e.name ≠ [] → ∃ e', processEntry o e = .node e' ∧ e'.name = e.name ∧ e'.link = e.link) := by
+  unfold processEntry processEntryWith
+  simp only [h]
+  constructor
+  · intro hn
+    simp only [hn, if_true]
+    by_cases hk : o.keepTime = true
+    · exact ⟨_, rfl, by simp [hk, hn]⟩
+    · exact ⟨_, rfl, by simp [hk, hn]⟩
+  · intro hn
+    simp only [hn, if_false]
+    by_cases hk : o.keepTime = true
+    · exact ⟨_, rfl, by simp [hk]⟩
+    · exact ⟨_, rfl, by simp [hk]⟩
+
+/-- **implicit parents**: after a successful `fstree_add_generic` every proper prefix of the entry's path is a
+    directory of the tree (created with the defaults when it did not exist), and no node was dropped. -/
+theorem implicit_parents (o : ConvOpts) (t t' : List TNode) (e : CEntry) (h : addGeneric o t e = some t') :
+    ∀ k, 0 < k → k < (Sqfs.Path.splitSlash e.name).length →
+      ∃ n ∈ t', n.path = (Sqfs.Path.splitSlash e.name).take k ∧ isDirMode n.mode = true := by
+  intro k h0 hk
+  unfold addGeneric at h
+  split at h
+  · cases h
+  · split at h
+    · cases h
+    · split at h
+      · cases h
+      · dsimp only at h
+        cases hp : ensureParents o t [] (Sqfs.Path.splitSlash e.name) with
+        | none => rw [hp] at h; cases h
+        | some t1 =>
+          rw [hp] at h
+          obtain ⟨_, hpre⟩ := ensureParents_spec o _ t [] t1 hp
+          obtain ⟨n, hn, hnp, hnd⟩ := hpre k h0 hk
+          simp only [List.nil_append] at hnp
+          simp only at h
+          have hne : n.path ≠ Sqfs.Path.splitSlash e.name := by
+            rw [hnp]; intro heq
+            have := congrArg List.length heq
+            simp at this; omega
+          split at h
+          · split at h
+            · simp only [Option.some.injEq] at h
+              subst h
+              refine ⟨n, ?_, hnp, hnd⟩
+              apply List.mem_map.2
+              exact ⟨n, hn, by simp [hne]⟩
+            · cases h
+          · split at h
+            · cases h
+            · simp only [Option.some.injEq] at h
+              subst h
+              exact ⟨n, List.mem_append_left _ hn, hnp, hnd⟩
 
 /-! ### non-vacuity -/
 
